@@ -19,6 +19,7 @@ import vf
 sys.path.insert(0, os.path.join(vf.ROOT, "gen"))
 import c09_gen as g  # noqa: E402
 import c09_badarg as ba  # noqa: E402
+import c09_matrix as mx  # noqa: E402
 
 DRIVER_SRC = os.path.join(vf.ROOT, "harness/c09_driver.cpp")
 HDR = os.path.join(vf.ROOT, "harness/c09_badarg.hpp")
@@ -239,8 +240,9 @@ def frame_check(op, ret, P, Q):
 
 # ------------------------------------------------------------------------------------------------ stage 1
 
-def first_diff(drv, mdl, ctx, case, tag="one"):
+def first_diff(drv, mdl, ctx, case, tag="one", header=None):
     """run one case in full mode on both sides; -> (index of first differing step or None, impl steps, model steps)"""
+    HEADER = header or globals()["HEADER"]
     p = os.path.join(ctx.workdir, tag + ".cases")
     open(p, "w").write(HEADER + "\n" + case + "\n")
     rc, a = vf.sh([drv, "full", p], timeout=120, env=ASAN_ENV)
@@ -480,6 +482,32 @@ def stage1(ctx, drv, mdl):
             "samples": [final[len(final) // 3], final[-1]]}
 
 
+def stage1_matrix(ctx, drv, mdl):
+    """list-position case splits of the model (gen/c09_matrix.py): op x target position x residue kind x residue position"""
+    universe, cs, na = mx.cases()
+    header = "universe " + " ".join(universe)
+    cases = [c for c, _ in cs]
+    impl = run_sharded(lambda p: [drv, "seq", p], cases, ctx.workdir, "mxc", header)
+    modl = run_sharded(lambda p: [mdl, p, "seq"], cases, ctx.workdir, "mxm", header)
+    cells = {}
+    nbad = 0
+    for (c, cell), x, y in zip(cs, impl, modl):
+        key = " | ".join(cell)
+        cells[key] = cells.get(key, 0) + 1
+        xs, ys = x.split(), y.split()
+        ok = len(xs) == 3 and len(ys) == 5 and xs[0] == ys[0] and xs[2] == ys[2] and xs[1] == "wf=ok" and ys[1] == "carve=-"
+        if not ok and nbad < 3:
+            nbad += 1
+            i, fx, fy = first_diff(drv, mdl, ctx, c, "mx1", header)
+            ctx.violation("C09 list position (%s): implementation and model disagree, or the invariant breaks, after %r" % (key, c),
+                          "position_%d.json" % nbad,
+                          {"mode": "seq", "universe": universe, "case": c, "cell": cell, "first_bad_step": i, "ops": c.split(";"),
+                           "impl_steps": fx, "model_steps": fy, "impl_digest_line": x, "model_digest_line": y})
+    ctx.cov["evaluations"] += len(cases)
+    ctx.log("stage 1: %d list-position histories in %d cells (op x target position x residue kind x residue position)" % (len(cases), len(cells)))
+    return {"histories": len(cases), "cells": cells, "cells_that_cannot_exist": ["%s: %s" % x for x in na], "universe": " ".join(universe)}
+
+
 def run(ctx):
     ctx.proofs()
     ctx.assumptions += [
@@ -491,6 +519,7 @@ def run(ctx):
     ]
     drv, mdl = drivers()
     s1 = stage1(ctx, drv, mdl)
+    s1m = stage1_matrix(ctx, drv, mdl)
     s2 = ba.stage2(ctx, drv)
     ctx.cov["distinct_nontrivial"] = s1["nontrivial"] + s2["nontrivial"]
     ctx.cov["exhaustive"] = True
@@ -510,7 +539,8 @@ def run(ctx):
                                                                       "state_classes", "class_representatives", "bad_argument_applications")},
                                      "bad_arguments": s2["dist"]}
     ctx.cov["input_distribution"]["histories"]["start_states"] = {n: ";".join(ops) for n, ops in g.START}
-    ctx.cov["traces_validated_against_impl"] = s1["distinct_sequences"]
+    ctx.cov["input_distribution"]["list_positions"] = s1m
+    ctx.cov["traces_validated_against_impl"] = s1["distinct_sequences"] + s1m["histories"]
     ctx.cov["entry_points"] = s2["entry_points"]
 
 
@@ -518,7 +548,8 @@ def replay(ctx, path):
     r = json.load(open(path))
     drv, mdl = drivers()
     if r.get("mode") == "seq":
-        i, xs, ys = first_diff(drv, mdl, ctx, r["case"], "replay")
+        hdr = "universe " + " ".join(r["universe"]) if r.get("universe") and list(r["universe"]) != list(g.UNIVERSE) else None
+        i, xs, ys = first_diff(drv, mdl, ctx, r["case"], "replay", hdr)
         setup, ops = split_case(r["case"])
         print("case :", r["case"])
         for k, o in enumerate(ops):
